@@ -106,6 +106,10 @@ func (c *container) addKv(key string, val string) ([]string, bool) {
 	defer c.lock.Unlock()
 
 	c.dirty.Set(true)
+	if prev, ok := c.mapping[key]; ok && prev != val {
+		// 该键带着新值回来了，而旧值的删除事件被错过：先解除旧值的关联
+		c.doRemoveKey(key)
+	}
 	keys := c.values[val]
 	previous := append([]string(nil), keys...)
 	early := len(keys) > 0
